@@ -1,6 +1,8 @@
 package taskctl
 
 import (
+	"context"
+	"errors"
 	"os/exec"
 	"sync"
 	"sync/atomic"
@@ -97,7 +99,8 @@ func (s *Scheduler) Schedule(g *scheduler.ExecutionGraph) error {
 					stage.UpdateStatus(scheduler.StatusError)
 					s.notifyStageChange(stage)
 
-					if !stage.AllowFailure {
+					// A task that was canceled did not fail on its own, so allow_failure does not apply
+					if !stage.AllowFailure || errors.Is(err, context.Canceled) {
 						mx.Lock()
 						lastErr = err
 						mx.Unlock()
@@ -114,6 +117,12 @@ func (s *Scheduler) Schedule(g *scheduler.ExecutionGraph) error {
 	}
 
 	wg.Wait()
+
+	// If the scheduler was cancelled before all stages were done, the result must not look like a success:
+	// stages that were still waiting will never run.
+	if lastErr == nil && atomic.LoadInt32(&s.cancelled) == 1 && !s.isDone(g) {
+		return context.Canceled
+	}
 
 	return lastErr
 }
